@@ -93,4 +93,10 @@ namespace pika::detail {
 
         std::vector<std::string> preprocess_config_settings(int argc, char const* const* argv);
     };
+#if defined(PIKA_VERIF_HOOKS)
+    // verification hook: exported entry to command_line_handling::call (the struct is not exported)
+    PIKA_EXPORT command_line_handling_result verif_command_line_call(command_line_handling& c,
+        pika::program_options::options_description const& desc_cmdline, int argc,
+        char const* const* argv);
+#endif
 }    // namespace pika::detail
